@@ -224,6 +224,9 @@ def verify_case(case, repo=None, summaries_lib=None, seed=0, scope=None, initial
                         st, m, dt = _check(solver, _neg(cond), case.timeout_ms)
                         res.v("raises:" + exc).add(st, dt, prims_of(m), f"{cls} raised although {exc} is specified")
                     res.v("no-other-exception").add("unsat")
+                elif _may_raise(case, eng.repo, cls):
+                    res.v("no-other-exception").add("unsat")
+                    res.covers["may-raise:" + cls] = True
                 else:
                     st, m, dt = _check(solver, False, case.timeout_ms)
                     res.v("no-other-exception").add(st, dt, prims_of(m), f"undocumented {cls} escapes")
@@ -258,6 +261,42 @@ def case_frontier(case, repo, summaries_lib, seed, scope, depth):
         return run_case_call(case, e, S)
 
     return frontier(eng, run, depth)
+
+
+def _exc_bases(repo, cls):
+    """names of ``cls`` and its base classes (repo exception classes by AST, builtins by the engine's table)."""
+    from .repo import BUILTIN_EXC_PARENT
+    out, todo = [], [cls]
+    while todo:
+        c = todo.pop()
+        if c in out:
+            continue
+        out.append(c)
+        if c in BUILTIN_EXC_PARENT:
+            if BUILTIN_EXC_PARENT[c]:
+                todo.append(BUILTIN_EXC_PARENT[c])
+            continue
+        for modname in ("exc", "io.exc", "io.gff3.exc", "io.genbank.exc"):
+            try:
+                mod = repo.module(modname)
+            except Exception:
+                continue
+            ci = getattr(mod, "classes", {}).get(c)
+            if ci is not None:
+                for b in ci.node.bases:
+                    todo.append(ast.unparse(b).split(".")[-1])
+                break
+    return out
+
+
+def _may_raise(case, repo, cls):
+    allowed = getattr(case, "may_raise", ())
+    if not allowed:
+        return False
+    try:
+        return any(b in allowed for b in _exc_bases(repo, cls))
+    except Exception:
+        return cls in allowed
 
 
 def _tobool(c):
@@ -372,6 +411,8 @@ def verify_ground(case, repo, summaries_lib, res, t0):
                     ok = bool(case.raises[v](inp))
                     res.v("raises:" + v).add("unsat" if ok else "sat", 0.0, None if ok else prims,
                                              f"{v} raised outside its condition")
+                    res.v("no-other-exception").add("unsat")
+                elif _may_raise(case, eng.repo, v):
                     res.v("no-other-exception").add("unsat")
                 else:
                     res.v("no-other-exception").add("sat", 0.0, prims, f"undocumented {v} escapes")
